@@ -3,12 +3,14 @@ import Driver.Core
 import Driver.Sec
 import Driver.Txn
 import Driver.Srv
+import Driver.Trav
 open Drv
 
 structure St where
   core : CoreSt := {}
   txn : TxnSt := {}
   srv : SrvSt := {}
+  trav : TravSt := {}
 
 def step (s : St) (line : String) : St × String :=
   match (line.trimAscii.toString.splitOn " ").filter (· ≠ "") with
@@ -18,6 +20,7 @@ def step (s : St) (line : String) : St × String :=
   | "KNN" :: args => let (c, o) := stepKnn s.core args; ({ s with core := c }, o)
   | "SEC" :: args => (s, stepSec args)
   | "SRV" :: args => let (c, o) := stepSrv s.srv args; ({ s with srv := c }, o)
+  | "TRAV" :: args => let (c, o) := stepTrav s.trav args; ({ s with trav := c }, o)
   | "TXN" :: args => let (c, o) := stepTxn s.txn args; ({ s with txn := c }, o)
   | _ => (s, "bad-op")
 
